@@ -73,7 +73,7 @@ def _replay_keyword(txt, w, exp):
 @kernel('K1b lexer.trivia_language')
 def k1b(ctx, kr):
     LM = LC.lexmodel(ctx)
-    nmax = 6 if ctx.tier == 'quick' else 9
+    nmax = 7 if ctx.tier == 'quick' else 9
     TRIV = [LM.tok_id['Whitespace'], LM.tok_id['Newline'], LM.tok_id['Comment']]
     ID = LM.tok_id['Identifier']
     kr.bounds = 'every ASCII string w of the reference trivia language ([ \\t]+ | \\n | \\r\\n | \\f | "(*" .. first "*)")*, |w| <= %d, placed between identifiers A and B' % nmax
